@@ -1,6 +1,224 @@
-/- stub: property C14 has no model driver yet -/
-namespace ActixModel.Drv.C14
+import ActixModel.Util
+import ActixModel.Model.Ws
+import ActixModel.Model.WsHandshake
+/-
+Line-protocol driver for C14 (see `harness/src/props/c14.rs` for the implementation side and
+`docs/C14.md` for the grammar).
 
-def run (_line : String) : String := "unimplemented"
+  stream role=<s|c> max=<n> al=<0..3> <seg>|<seg>|…     Codec::decode loop, one feed per segment
+  parse  role=<s|c> max=<n> al=<0..3> <bytes>           one Parser::parse call
+  enc    role=<s|c> max=<n> al=<0..3> k=<8 hex> <msg> … Codec::encode at `role`, decode at the peer
+  hs     m=<METHOD> <name>=<bytes> …                    ws::handshake
+  key    <bytes>                                        ws::hash_key
+  closecodes                                            u16 → CloseCode → u16 (constant on the model side)
+
+<bytes> = `-` | chunk(+chunk)*, chunk = hex | R<len>.<seed> | A<len>.<seed> (pattern bytes / printable
+ASCII pattern, for long payloads)
+-/
+namespace ActixModel.Drv.C14
+open ActixModel.Util ActixModel.Ws
+
+/-- pattern bytes `R<len>.<seed>`: `b_i = (seed + 31 i + 7 (i / 251)) mod 256` -/
+def patBytes (len seed : Nat) : Bytes :=
+  (List.range len).map fun i => UInt8.ofNat ((seed + 31 * i + 7 * (i / 251)) % 256)
+
+/-- printable ASCII pattern `A<len>.<seed>`: `b_i = 32 + (seed + 7 i) mod 95` -/
+def asciiBytes (len seed : Nat) : Bytes :=
+  (List.range len).map fun i => UInt8.ofNat (32 + (seed + 7 * i) % 95)
+
+def parseChunk (s : String) : Option Bytes :=
+  if s.startsWith "R" || s.startsWith "A" then
+    match ((s.drop 1).toString).splitOn "." with
+    | [l, sd] =>
+      match l.toNat?, sd.toNat? with
+      | some len, some seed => some (if s.startsWith "R" then patBytes len seed else asciiBytes len seed)
+      | _, _ => none
+    | _ => none
+  else bytesOfHex s
+
+def parseBytes (s : String) : Option Bytes :=
+  if s == "-" || s == "" then some []
+  else (s.splitOn "+").foldl (fun acc c =>
+    match acc, parseChunk c with
+    | some a, some b => some (a ++ b)
+    | _, _ => none) (some [])
+
+/-- FNV-1a, 32 bit -/
+def fnv32 (bs : Bytes) : UInt32 :=
+  bs.foldl (fun h b => (h ^^^ b.toUInt32) * 16777619) 2166136261
+
+/-- payload display: hex up to 48 bytes, else `#<len>.<fnv32>` -/
+def showBytes (bs : Bytes) : String :=
+  if bs.isEmpty then "-"
+  else if bs.length ≤ 48 then hexOfBytes bs
+  else "#" ++ toString bs.length ++ "." ++ toString (fnv32 bs).toNat
+
+def showOp : OpCode → String
+  | .continue => "cont" | .text => "text" | .binary => "bin" | .close => "close"
+  | .ping => "ping" | .pong => "pong" | .bad => "bad"
+
+def showErr : ProtocolError → String
+  | .unmaskedFrame => "unmasked"
+  | .maskedFrame => "masked"
+  | .invalidOpcode b => "opcode(" ++ toString b.toNat ++ ")"
+  | .invalidLength n => "length(" ++ toString n ++ ")"
+  | .badOpCode => "badopcode"
+  | .overflow => "overflow"
+  | .continuationNotStarted => "cont-not-started"
+  | .continuationStarted => "cont-started"
+  | .continuationFragment op => "cont-fragment(" ++ showOp op ++ ")"
+
+def showCloseIn : Option CloseReasonIn → String
+  | none => "CLOSE:-"
+  | some r =>
+    "CLOSE:" ++ toString r.code ++
+      (match r.description with
+       | none => ""
+       | some (.exact bs) =>
+         -- the implementation side sees only the decoded `String`: a U+FFFD in it is shown as `~`
+         if WsHandshake.containsSub [0xEF, 0xBF, 0xBD] bs then ":~" else ":" ++ showBytes bs
+       | some .lossy => ":~")
+
+def showFrame : Frame → String
+  | .text b => "T:" ++ showBytes b
+  | .binary b => "B:" ++ showBytes b
+  | .continuation (.firstText b) => "CT:" ++ showBytes b
+  | .continuation (.firstBinary b) => "CB:" ++ showBytes b
+  | .continuation (.continue b) => "CC:" ++ showBytes b
+  | .continuation (.last b) => "CL:" ++ showBytes b
+  | .ping b => "PI:" ++ showBytes b
+  | .pong b => "PO:" ++ showBytes b
+  | .close r => showCloseIn r
+
+def showFrames (fs : List Frame) : String :=
+  if fs.isEmpty then "-" else joinWith " " (fs.map showFrame)
+
+def b01 (b : Bool) : String := if b then "1" else "0"
+
+def mkCodec (role : String) (max : Nat) : Codec :=
+  let c := Codec.new.withMaxSize max
+  if role == "c" then c.clientMode else c
+
+/-- feed the segments one by one, recording what each feed delivered -/
+def feedSegs (al : Nat) : Conn → List Bytes → List String → List String × Conn
+  | s, [], acc => (acc.reverse, s)
+  | s, seg :: segs, acc =>
+    let (fs, s') := s.feed al seg
+    feedSegs al s' segs (showFrames fs :: acc)
+
+def showEnd (s : Conn) : String :=
+  (match s.dead with
+   | some e => "E:" ++ showErr e
+   | none => "N" ++ toString s.buf.length) ++ " c=" ++ b01 s.codec.cont
+
+def runStream (ws : List String) : String :=
+  let role := (kv ws "role").getD "s"
+  let max := kvNat ws "max" 65536
+  let al := kvNat ws "al" 0
+  match ws.getLast? with
+  | none => "bad-case"
+  | some segStr =>
+    let segs := (segStr.splitOn "|").map parseBytes
+    if segs.any Option.isNone then "bad-case"
+    else
+      let (outs, s) := feedSegs al { codec := mkCodec role max } (segs.map (·.getD [])) []
+      joinWith " | " outs ++ " ; " ++ showEnd s
+
+def runParse (ws : List String) : String :=
+  let role := (kv ws "role").getD "s"
+  let max := kvNat ws "max" 65536
+  let al := kvNat ws "al" 0
+  match ws.getLast?.bind parseBytes with
+  | none => "bad-case"
+  | some src =>
+    match parse al src (role != "c") max with
+    | (.needMore, rest) => "N r=" ++ toString rest.length
+    | (.err e, rest) => "E:" ++ showErr e ++ " r=" ++ toString rest.length
+    | (.frame fin op pl, rest) =>
+      "F " ++ b01 fin ++ " " ++ showOp op ++ " " ++
+        (match pl with | none => "none" | some b => showBytes b) ++ " r=" ++ toString rest.length
+
+def parseCloseMsg (parts : List String) : Option Message :=
+  match parts with
+  | ["CLOSE", "-"] => some (.close none)
+  | ["CLOSE", c] => c.toNat?.map fun n => .close (some ⟨n, none⟩)
+  | ["CLOSE", c, d] =>
+    match c.toNat?, parseBytes d with
+    | some n, some bs => some (.close (some ⟨n, some bs⟩))
+    | _, _ => none
+  | _ => none
+
+def parseMsg (tok : String) : Option Message :=
+  if tok == "NOP" then some .nop
+  else
+    match tok.splitOn ":" with
+    | ["T", p] => (parseBytes p).map .text
+    | ["B", p] => (parseBytes p).map .binary
+    | ["PI", p] => (parseBytes p).map .ping
+    | ["PO", p] => (parseBytes p).map .pong
+    | ["CT", p] => (parseBytes p).map (.continuation ∘ .firstText)
+    | ["CB", p] => (parseBytes p).map (.continuation ∘ .firstBinary)
+    | ["CC", p] => (parseBytes p).map (.continuation ∘ .continue)
+    | ["CL", p] => (parseBytes p).map (.continuation ∘ .last)
+    | parts => parseCloseMsg parts
+
+/-- encode the messages one after the other into one buffer that starts at address `al` -/
+def encodeAll (key : Mask) (al : Nat) : Codec → List Message → Nat → Bytes → List String → List String × Bytes × Codec
+  | c, [], _, out, acc => (acc.reverse, out, c)
+  | c, m :: ms, off, out, acc =>
+    match c.encode ((al + off) % 4) key m with
+    | (.ok bs, c') => encodeAll key al c' ms (off + bs.length) (out ++ bs) (showBytes bs :: acc)
+    | (.error e, c') => encodeAll key al c' ms off out (("E:" ++ showErr e) :: acc)
+
+def runEnc (ws : List String) : String :=
+  let role := (kv ws "role").getD "s"
+  let max := kvNat ws "max" 65536
+  let al := kvNat ws "al" 0
+  let key := Mask.ofList (((kv ws "k").bind bytesOfHex).getD [0, 0, 0, 0])
+  let toks := ws.filter fun w => !(w.startsWith "role=" || w.startsWith "max=" || w.startsWith "al=" || w.startsWith "k=" || w == "enc")
+  let msgs := toks.map parseMsg
+  if msgs.any Option.isNone then "bad-case"
+  else
+    let (encs, wire, c) := encodeAll key al (mkCodec role max) (msgs.filterMap id) 0 [] []
+    let peer := mkCodec (if role == "c" then "s" else "c") max
+    let (fs, s) := ({ codec := peer } : Conn).feed al wire
+    (if encs.isEmpty then "-" else joinWith " " encs) ++ " w=" ++ b01 c.wcont ++ " => " ++ showFrames fs ++ " ; " ++ showEnd s
+
+open ActixModel.WsHandshake in
+def showHsErr : HandshakeError → String
+  | .getMethodRequired => "method"
+  | .noWebsocketUpgrade => "no-upgrade"
+  | .noConnectionUpgrade => "no-connection"
+  | .noVersionHeader => "no-version"
+  | .unsupportedVersion => "bad-version"
+  | .badWebsocketKey => "no-key"
+
+open ActixModel.WsHandshake in
+def runHs (ws : List String) : String :=
+  let m := (kv ws "m").getD "GET"
+  let hs := (ws.filter fun w => !(w.startsWith "m=") && w != "hs").map fun w =>
+    match w.splitOn "=" with
+    | [n, v] => (parseBytes v).map fun bs => (n, bs)
+    | _ => none
+  if hs.any Option.isNone then "bad-case"
+  else
+    match handshake ⟨m, hs.filterMap id⟩ with
+    | .error e => "E:" ++ showHsErr e
+    | .ok r => "OK " ++ toString r.status ++ " up=" ++ r.upgrade ++ " cu=" ++ b01 r.connectionUpgrade ++
+        " accept=" ++ stringOfBytes r.accept
+
+def run (line : String) : String :=
+  let ws := words line
+  match ws with
+  | "stream" :: _ => runStream ws
+  | "parse" :: _ => runParse ws
+  | "enc" :: _ => runEnc ws
+  | "hs" :: _ => runHs ws
+  | ["key", k] =>
+    match parseBytes k with
+    | some bs => stringOfBytes (WsHandshake.hashKey bs)
+    | none => "bad-case"
+  | ["closecodes"] => "ok"
+  | _ => "bad-case"
 
 end ActixModel.Drv.C14
